@@ -1149,6 +1149,9 @@ func c12() {
 	for i := 0; i < 40; i++ {
 		pCustom(rnd(), true) // nested custom messages: standard bytes (recorded deviation: two length prefixes)
 	}
+	for i := 0; i < 10; i++ {
+		pBigField(rnd()) // field numbers above 65535 (recorded deviation: kept in 16 bits)
+	}
 	g := &pgen{maxDepth: 3, allowRaw: false, allowMap: true, bigNumber: false}
 	nTypes, nVals, nRe := 260, 3, 5
 	if *tier == "thorough" {
